@@ -2,11 +2,19 @@
 ID = "C10"
 
 PROP = {
-    "proof_modules": ["GrolProofs.Props.C10"],
+    "proof_modules": ["GrolProofs.Props.C10", "GrolProofs.Props.C10Full", "GrolProofs.RenBase", "GrolProofs.RenVal", "GrolProofs.RenEnv",
+                      "GrolProofs.RenOps", "GrolProofs.RenHelpers", "GrolProofs.RenMain"],
     "theorems": ["Grol.E.C10.reset", "Grol.E.C10.reset_abnormal", "Grol.E.C10.no_trace", "Grol.E.C10.no_trace_of_same",
                  "Grol.E.C10.runInput_congr", "Grol.E.C10.runInputs_congr", "Grol.E.C10.next_input_fresh_writer",
                  "Grol.E.C10.runInput_keeps", "Grol.E.runInput_eq", "Grol.E.sameSession_iff",
-                 "Grol.E.eval_keeps", "Grol.E.eval_restores", "Grol.E.allGood"],
+                 "Grol.E.eval_keeps", "Grol.E.eval_restores", "Grol.E.allGood",
+                 "Grol.C10.renaming_invariance", "Grol.C10.runInput_sim", "Grol.C10.runInputs_sim", "Grol.C10.stR_of_heapExtends",
+                 "Grol.C10.statement_pointwise", "Grol.C10.statement_core", "Grol.C10.statement", "Grol.C10.statement_full",
+                 "Grol.C10.renderValue_ren", "Grol.C10.renderFuel_ren", "Grol.C10.renderInv", "Grol.C10.ren_of_ok",
+                 "Grol.R.simSpec_all", "Grol.R.sim_envGet", "Grol.R.sim_makeRef", "Grol.R.sim_createOrSet", "Grol.R.sim_valueOf",
+                 "Grol.R.sim_envDelete", "Grol.R.sim_extendFunctionEnv", "Grol.R.sim_finishCall", "Grol.R.sim_cacheGet",
+                 "Grol.R.sim_cacheSet", "Grol.R.sim_evalInfixOp", "Grol.R.cmp_ren", "Grol.R.inspect_ren", "Grol.R.keyEq_ren_left",
+                 "Grol.R.keyEq_ren_right", "Grol.R.hashable_ren"],
     "suites": ["session"],
     "rule": ("session suite: one case = a base history of inputs plus side-effect-free FAILING inputs inserted at chosen positions "
              "with chosen multiplicities; the history WITH and the history WITHOUT the failing inputs are each run on a fresh persistent "
@@ -54,12 +62,18 @@ LEVEL = {
              "writer stack and step counter (runInput_congr, runInputs_congr); the next input starts on a single fresh writer; from a "
              "top-level state, after ANY input (normal, error, Go panic, depth guard) scope = root and depth = 0 (reset; by induction "
              "over the whole evaluator: eval_restores, eval_keeps); an input whose final state has the heap, cache and in-place-write log (St.hazards, "
-             "C06/C19 instrumentation) it started with leaves no trace for any continuation (no_trace). The full statement (heap grown by unreachable frames, cache unchanged) "
-             "is stated as C10.Statement and not proved. One listed finding: with the cache on, a failing input leaves cached "
+             "C06/C19 instrumentation) it started with leaves no trace for any continuation (no_trace). The full statement (heap grown by unreachable frames, "
+             "counters and log entries differing, cache unchanged) is PROVED for the model (Grol.C10.statement_full : C10.Statement, no hypothesis): a two-run simulation of the whole evaluator "
+             "model up to a shift of the frame indices (Grol.C10.renaming_invariance: related states give related outcomes and related states, for every "
+             "fuel and syntax tree; lean/GrolProofs/Ren*.lean, one lemma per model function, induction on the fuel over the 19 mutually recursive "
+             "functions), its lifting to runInput and to continuations (runInput_sim, runInputs_sim), the relation established from the hypotheses of the "
+             "statement (stR_of_heapExtends) and the invariance of the result renderer (renderValue_ren; renderValue is a total function since this "
+             "proof: structural over the value, at most 1000 references followed in a row). What remains trusted is the tie between model and code "
+             "(eval and session correspondence suites). One listed finding: with the cache on, a failing input leaves cached "
              "closures behind (C04's closure-result class)."),
     "design_ref": "DESIGN.md section 7, C10",
     "note": ("Trusted: Lean kernel; axioms propext/Classical.choice/Quot.sound only; the evaluator model is tied to the code by the eval and "
              "session correspondence runs; harness canonicalisation. The two defects seen by hand (State.Out left on a call's buffer after a "
              "panic; registers leaked by failed counted loops) are repaired in /repo and the suite confirms they are gone."),
-    "technique": "Lean 4 session model + differential histories through the real REPL entry point; congruence, reset (induction over the evaluator) and no-trace theorems",
+    "technique": "Lean 4 session model + differential histories through the real REPL entry point; congruence, reset (induction over the evaluator), no-trace theorems and a two-run simulation of the evaluator up to renaming of frame indices (relational Hoare calculus SimAt)",
 }
